@@ -369,7 +369,7 @@ pub fn exact_area2_dyadic(ring: &[V]) -> Option<i128> {
         let (x, y) = (f64::from_bits(v[0]), f64::from_bits(v[1]));
         let sx = x * 1024.0;
         let sy = y * 1024.0;
-        if !(sx.is_finite() && sy.is_finite()) || sx.fract() != 0.0 || sy.fract() != 0.0 || sx.abs() > 4e9 || sy.abs() > 4e9 {
+        if !(sx.is_finite() && sy.is_finite()) || sx.fract() != 0.0 || sy.fract() != 0.0 || sx.abs() > 8.0e12 || sy.abs() > 8.0e12 {
             return None;
         }
         ints.push((sx as i128, sy as i128));
@@ -381,14 +381,34 @@ pub fn exact_area2_dyadic(ring: &[V]) -> Option<i128> {
     Some(s)
 }
 
-/// All X/Y of the ring are multiples of 2^-6 with |v| <= 2^12 (the exact pool / the grid).
+/// Whether the library's f64 evaluation of the shoelace sum  sum (x2-x1)*(y2+y1)  (left to
+/// right) is EXACT for this ring, decided from the ring itself: all coordinates are multiples
+/// of 2^-10, and every difference, every sum, every product and every partial sum is an
+/// integer multiple of 2^-20 of magnitude below 2^53 * 2^-20 — hence representable, so no
+/// IEEE operation rounds. (Conservative: rings outside are simply not judged.) The sign of the
+/// exact area is then what the library must find.
 pub fn in_exact_pool(ring: &[V]) -> bool {
-    ring.iter().all(|v| {
-        [v[0], v[1]].iter().all(|b| {
-            let x = f64::from_bits(*b) * 64.0;
-            x.is_finite() && x.fract() == 0.0 && x.abs() <= 262144.0
-        })
-    }) && ring.len() <= 1024
+    let mut ints: Vec<(i128, i128)> = Vec::with_capacity(ring.len());
+    for v in ring {
+        let (sx, sy) = (f64::from_bits(v[0]) * 1024.0, f64::from_bits(v[1]) * 1024.0);
+        if !(sx.is_finite() && sy.is_finite()) || sx.fract() != 0.0 || sy.fract() != 0.0 || sx.abs() > 8.0e12 || sy.abs() > 8.0e12 {
+            return false;
+        }
+        ints.push((sx as i128, sy as i128));
+    }
+    const LIM: i128 = 1 << 53;
+    let mut sum: i128 = 0;
+    for w in ints.windows(2) {
+        let dx = w[1].0 - w[0].0;
+        let sy = w[1].1 + w[0].1;
+        // dx and sy are multiples of 2^-10: representable if below 2^53 units of 2^-10
+        let t = dx * sy;
+        sum += t;
+        if dx.abs() >= LIM || sy.abs() >= LIM || t.abs() >= LIM || sum.abs() >= LIM {
+            return false;
+        }
+    }
+    true
 }
 
 pub fn ring_json(ring: &[V]) -> J {
